@@ -262,12 +262,13 @@ func c16uci(c *Ctx) {
 			ok, _ := u.sync(20 * time.Second)
 			payload := map[string]interface{}{"session": sid, "line": desc, "transcript_tail": u.transcript(30)}
 			if !ok {
-				dl, sig := engineDeadlocked(inProcessDump())
+				dl, sig := provenDeadlock()
 				k := "uci:unresponsive-after-line"
 				if dl {
 					k += ":deadlock:" + sig
 				}
 				rep.Viol(k+":"+cmdClass(line), fmt.Sprintf("after line %q the engine does not answer isready within 20 s (%s)", desc, sig), payload)
+				u.dispose()
 				u = nil // abandon this handler
 				continue
 			}
@@ -306,6 +307,7 @@ func c16uci(c *Ctx) {
 					u.send("go depth 1")
 					if _, ok, _ := u.waitFor(isBestmove, 30*time.Second); !ok {
 						rep.Viol("uci:no-bestmove-after-hostile-line:"+cmdClass(line), fmt.Sprintf("go depth 1 after line %q gives no bestmove", desc), payload)
+						u.dispose()
 						u = nil
 						continue
 					}
